@@ -441,19 +441,25 @@ theorem getBytesCntGen_terminates (v : Nat) (a2n : Bool) (bc : Nat) (bcO : Optio
   refine ⟨byteLen v + 1, liftNat (getBytesCnt v a2n bc), ?_, fun fuel h => getBytesCnt_gen_eq fuel v a2n bc bcO hbc (by omega) h53⟩
   exact getBytesCnt_ne_other v a2n bc
 
-/-- NON-termination for negative values: `value >>= 8` never reaches 0 from below (`-1 >> 8 == -1`), so the translated
-    loop exhausts every fuel — `get_bytes_cnt_of_int(-1)` (and `value_to_bytes(-1)`, `load_hex_string(-1, n)`) hangs in
-    Python.  Robustness observation, outside the property's domain (C19 guards its caller). -/
-theorem getBytesCntGen_neg_exhausts (fuel : Nat) (v : Int) (hv : v < 0) (a2n : Bool) (bcO : Option Int) :
-    getBytesCntOfInt fuel v a2n bcO = .error .other :=
+/-- negative values are refused with an SPSDK error for every fuel — before the loop, which would never end on them
+    (`-1 >> 8 == -1`).  Fix 55a6c57; before it `get_bytes_cnt_of_int(-1)`, `value_to_bytes(-1)` and `load_hex_string(-1, n)`
+    did not return (this theorem then read `= .error .other` = "fuel exhausted" for every fuel). -/
+theorem getBytesCntGen_neg_refused (fuel : Nat) (v : Int) (hv : v < 0) (a2n : Bool) (bcO : Option Int) :
+    getBytesCntOfInt fuel v a2n bcO = .error .spsdk :=
   getBytesCnt_gen_neg fuel v hv a2n bcO
 
-/-- … in particular: no fuel suffices for `-1` -/
-theorem getBytesCntGen_neg_no_fuel (a2n : Bool) (bcO : Option Int) :
-    ¬ ∃ fuel r, getBytesCntOfInt fuel (-1) a2n bcO = .ok r := by
-  rintro ⟨fuel, r, h⟩
-  rw [getBytesCnt_gen_neg fuel (-1) (by omega) a2n bcO] at h
-  cases h
+/-- so the translated function answers for EVERY integer with enough fuel: it never runs out of fuel above the byte count -/
+theorem getBytesCntGen_total (v : Int) (a2n : Bool) (bcO : Option Int) (hbc : 0 ≤ bcO.getD 0) (h53 : byteLen v.toNat < 2 ^ 53) :
+    ∃ fuel₀, ∀ fuel, fuel₀ ≤ fuel → getBytesCntOfInt fuel v a2n bcO ≠ .error .other := by
+  by_cases hv : v < 0
+  · exact ⟨0, fun fuel _ => by rw [getBytesCnt_gen_neg fuel v hv a2n bcO]; intro h; cases h⟩
+  · obtain ⟨n, rfl⟩ := Int.eq_ofNat_of_zero_le (Int.not_lt.1 hv)
+    refine ⟨byteLen n + 1, fun fuel hf => ?_⟩
+    have hb : bcO.getD 0 = ((bcO.getD 0).toNat : Int) := by omega
+    rw [getBytesCnt_gen_eq fuel n a2n _ bcO hb (by omega) (by simpa using h53)]
+    exact getBytesCnt_ne_other n a2n _
+
+example : (0 : Int) ≤ (some (3 : Int)).getD 0 ∧ byteLen (-70000 : Int).toNat < 2 ^ 53 ∧ byteLen (70000 : Int).toNat < 2 ^ 53 := by decide
 
 /-- contract over the generated function: without `byte_cnt` the documented width (minimal; with `align_to_2n` 1, 2,
     then the next multiple of 4) -/
@@ -827,7 +833,7 @@ example : fromLabel enumAhabTargetMemory "NoR".toList = .ok (1, "nor".toList, no
 example : getBytesCntOfInt 10 70000 true none = .ok 4 ∧ getBytesCntOfInt 10 70000 false none = .ok 3 ∧
           getBytesCntOfInt 10 65536 true (some 3) = .error .spsdk ∧ getBytesCntOfInt 10 0 true (some 0) = .ok 1 ∧
           getBytesCntOfInt 2 70000 true none = .error .other ∧          -- fuel too small
-          getBytesCntOfInt 64 (-1) true none = .error .other := by decide     -- never terminates
+          getBytesCntOfInt 64 (-1) true none = .error .spsdk ∧ getBytesCntOfInt 0 (-1) true none = .error .spsdk := by decide   -- refused (fix 55a6c57)
 example : bcdCheckNumber 0x1234 = .ok true ∧ bcdCheckNumber 0x12A4 = .error .spsdk ∧ bcdCheckNumber (-1) = .error .spsdk := by decide
 example : alignBlockNumPadding 13 8 = .ok 3 ∧ alignBlockNumPadding 16 8 = .ok 0 ∧ alignBlockNumPadding 5 0 = .error .spsdk ∧
           extendBlockNumPadding 5 9 0 = .ok 4 ∧ extendBlockNumPadding 5 4 0 = .error .spsdk := by decide
@@ -1002,17 +1008,17 @@ theorem formatValue_err (value size : Int) (d : List Char) (p : Bool) :
     by_cases h : size < 0 <;> simp [h]
 
 theorem guards3_spec :
-    (∀ n : Nat, bcdNumFromStrGuard n = if n ≤ 4 then .ok true else .error .spsdk) ∧
+    (∀ n : Nat, bcdNumFromStrGuard n = if 1 ≤ n ∧ n ≤ 4 then .ok true else .error .spsdk) ∧
     (∀ v : Int, unpackTimestampGuard v = if 0 ≤ v ∧ v ≤ 0xFFFFFFFFFFFFFFFF then .ok true else .error .spsdk) := by
   constructor
   · intro n
     unfold bcdNumFromStrGuard
-    by_cases h : n ≤ 4
-    · have h1 : ¬ ((n : Int) < 0) := by omega
+    by_cases h : 1 ≤ n ∧ n ≤ 4
+    · have h1 : ¬ ((n : Int) < 1) := by omega
       have h2 : ¬ ((n : Int) > 4) := by omega
       simp [h, h1, h2]
-    · have h2 : (n : Int) > 4 := by omega
-      simp [h, h2]
+    · have h2 : (n : Int) < 1 ∨ (n : Int) > 4 := by omega
+      rcases h2 with h2 | h2 <;> simp [h, h2]
   · intro v
     unfold unpackTimestampGuard
     by_cases h : 0 ≤ v ∧ v ≤ 0xFFFFFFFFFFFFFFFF
@@ -1074,7 +1080,7 @@ theorem bcd_str_roundtrip (a b c : Nat) (ha : bcdDigitOk a = true) (hb : bcdDigi
     bcdFromStr (bcdStr (a, b, c)) = .ok (a, b, c) := by
   have nd : ∀ n, bcdDigitOk n = true → '.' ∉ bcdToDigits n := by
     intro n hn hm
-    exact (dec_facts _ ((bcdToDigits_facts n hn).2.2.1 _ hm)).2.2.2.2.2.2.2.2 rfl
+    exact (dec_facts _ ((bcdToDigits_facts n hn).2.2.1 _ hm)).2.2.1 rfl
   have e : bcdStr (a, b, c) = bcdToDigits a ++ '.' :: (bcdToDigits b ++ '.' :: bcdToDigits c) := by simp [bcdStr]
   simp only [bcdFromStr]
   rw [e, splitOn_append '.' _ _ (nd a ha), splitOn_append '.' _ _ (nd b hb), splitOn_nosep '.' _ (nd c hc)]
@@ -1104,13 +1110,98 @@ theorem bcd_canonical (t : List Char) (v : Nat × Nat × Nat) (h : bcdFromStr t 
 /-- the generated constant `BcdVersion3.DEFAULT` is a valid version -/
 theorem bcd_default_valid : bcdFromStr bcdDefault = .ok (0x999, 0x999, 0x999) := by decide
 
-/-- KNOWN FINDING C20-bcd-num-from-str-unvalidated (current behaviour, modelled as it is): each component goes straight
-    to `int(text, 16)`; the generated length guard `len(text) < 0 or len(text) > 4` never fires from below, so signs,
-    `0x`, underscores and blanks are accepted and an empty / malformed component is a `ValueError`, not an SPSDK error -/
-example : bcdFromStr "0x1.+2. 3".toList = .ok (1, 2, 3) ∧ bcdFromStr "1_2.-0.0X_9".toList = .ok (0x12, 0, 9) ∧
-          bcdFromStr ".0.0".toList = .error .other ∧ bcdFromStr "_1.0.0".toList = .error .other ∧
+/-- the documented grammar `#.#.#`, `#` = 1–4 decimal digits, as a predicate on the text -/
+def BcdGrammar (t : List Char) : Prop :=
+  ∃ a b c : List Char, t = a ++ '.' :: (b ++ '.' :: c) ∧
+    ∀ p ∈ [a, b, c], 1 ≤ p.length ∧ p.length ≤ 4 ∧ ∀ ch ∈ p, '0' ≤ ch ∧ ch ≤ '9'
+
+/-- `str.split` re-joins to the text -/
+theorem splitOn_join3 (t a b c : List Char) (h : splitOn '.' t = [a, b, c]) : t = a ++ '.' :: (b ++ '.' :: c) := by
+  have key : ∀ (t : List Char) (g : List Char) (gs : List (List Char)), splitOn '.' t = g :: gs →
+      t = joinWith ['.'] (g :: gs) := by
+    intro t
+    induction t with
+    | nil => intro g gs h; simp [splitOn] at h; obtain ⟨rfl, rfl⟩ := h; rfl
+    | cons ch cs ih =>
+      intro g gs h
+      rw [splitOn] at h
+      by_cases hc : ch = '.'
+      · subst hc
+        simp only [beq_self_eq_true, if_true, List.cons.injEq] at h
+        obtain ⟨rfl, rfl⟩ := h
+        cases hs : splitOn '.' cs with
+        | nil => exact absurd hs (splitOn_ne_nil '.' cs)
+        | cons g' gs' =>
+          have := ih g' gs' hs
+          rw [this]
+          simp [joinWith]
+      · have hc' : (ch == '.') = false := by simp [hc]
+        simp only [hc', if_false, Bool.false_eq_true] at h
+        cases hs : splitOn '.' cs with
+        | nil => exact absurd hs (splitOn_ne_nil '.' cs)
+        | cons g' gs' =>
+          rw [hs] at h
+          simp only [List.cons.injEq] at h
+          obtain ⟨rfl, rfl⟩ := h
+          have := ih g' gs' hs
+          rw [this]
+          cases gs' with
+          | nil => simp [joinWith]
+          | cons g'' gs'' => simp [joinWith]
+  have := key t a [b, c] h
+  simpa [joinWith] using this
+
+/-- AFTER fix 619e9e1 the parser accepts exactly the documented grammar: whatever `from_str` accepts is `#.#.#` with 1–4
+    decimal digits per component (before the fix `'0x1.+2. 3'`, `'1_2.0.0'`, `'-0.0.0'` and non-ASCII digits were accepted) … -/
+theorem bcdFromStr_grammar (t : List Char) (v : Nat × Nat × Nat) (h : bcdFromStr t = .ok v) : BcdGrammar t := by
+  unfold bcdFromStr at h
+  split at h
+  · rename_i a b c hs
+    cases ha : bcdNumFromStr a with
+    | error e => rw [ha] at h; cases h
+    | ok x =>
+      cases hb : bcdNumFromStr b with
+      | error e => rw [ha, hb] at h; cases h
+      | ok y =>
+        cases hc : bcdNumFromStr c with
+        | error e => rw [ha, hb, hc] at h; cases h
+        | ok z =>
+          refine ⟨a, b, c, splitOn_join3 t a b c hs, ?_⟩
+          intro p hp
+          simp only [List.mem_cons, List.not_mem_nil, or_false] at hp
+          rcases hp with rfl | rfl | rfl
+          · exact bcdNumFromStr_grammar _ x ha
+          · exact bcdNumFromStr_grammar _ y hb
+          · exact bcdNumFromStr_grammar _ z hc
+  · cases h
+
+/-- … and every refusal is an SPSDK error (before the fix an empty or `_1` / `zz` component raised `ValueError`) -/
+theorem bcdFromStr_err_spsdk (t : List Char) (e : PyErr) (h : bcdFromStr t = .error e) : e = .spsdk := by
+  unfold bcdFromStr at h
+  split at h
+  · rename_i a b c _
+    cases ha : bcdNumFromStr a with
+    | error e' => rw [ha] at h; cases h; exact bcdNumFromStr_err a _ ha
+    | ok x =>
+      cases hb : bcdNumFromStr b with
+      | error e' => rw [ha, hb] at h; cases h; exact bcdNumFromStr_err b _ hb
+      | ok y =>
+        cases hc : bcdNumFromStr c with
+        | error e' => rw [ha, hb, hc] at h; cases h; exact bcdNumFromStr_err c _ hc
+        | ok z => rw [ha, hb, hc] at h; cases h
+  · cases h; rfl
+
+/-- the generated alphabet of the component check -/
+theorem bcd_alphabet : bcdNumAlphabet = "0123456789abcdefABCDEF".toList := by decide
+
+/-- behaviour after fix 619e9e1 (each of the first six was accepted or a `ValueError` before) -/
+example : bcdFromStr "0x1.+2. 3".toList = .error .spsdk ∧ bcdFromStr "1_2.0.0".toList = .error .spsdk ∧
+          bcdFromStr "-0.0.0".toList = .error .spsdk ∧ bcdFromStr ".0.0".toList = .error .spsdk ∧
+          bcdFromStr "_1.0.0".toList = .error .spsdk ∧ bcdFromStr "zz.0.0".toList = .error .spsdk ∧
           bcdFromStr "a.0.0".toList = .error .spsdk ∧ bcdFromStr "12345.0.0".toList = .error .spsdk ∧
           bcdFromStr "1.2".toList = .error .spsdk ∧ bcdFromStr "9999.0.10".toList = .ok (0x9999, 0, 0x10) := by decide
+example : BcdGrammar "12.0.9999".toList :=
+  ⟨"12".toList, "0".toList, "9999".toList, by decide, by decide⟩
 example : bcdDigitOk 0x9999 = true ∧ bcdDigitOk 0x12 = true ∧ bcdStr (0x12, 0, 0x9999) = "12.0.9999".toList := by decide
 
 /-! ## `load_hex_string`: the FILE branch -/
@@ -1183,7 +1274,8 @@ example : changeEndianness [1, 2, 3, 4] = .ok [4, 3, 2, 1] ∧ changeEndianness 
           changeEndianness [1, 2, 3, 4, 5, 6, 7, 8] = .ok [4, 3, 2, 1, 8, 7, 6, 5] ∧ changeEndianness [1, 2, 3, 4, 5] = .error .spsdk := by decide
 example : sbAlignBlockFillZeros [1, 2, 3] = .ok ([1, 2, 3] ++ List.replicate 13 0) ∧ sbBlockSize = 16 := by decide
 example : valueToBytesAny (.str " 1_000 ".toList) true none false = .ok [3, 0xE8] ∧ valueToBytesAny (.bytes [1, 2, 3]) true (some 1) false = .ok [1, 2, 3] ∧
-          valueToBytesAny (.int 5) true (some (-1)) false = .error .spsdk ∧ valueToBytesAny (.int 0) true (some (-1)) false = .error .other := by decide
+          valueToBytesAny (.int 5) true (some (-1)) false = .error .spsdk ∧ valueToBytesAny (.int 0) true (some (-1)) false = .error .other ∧
+          valueToBytesAny (.int (-1)) true none false = .error .spsdk ∧ loadHexString (.int (-1)) 4 = .error .spsdk := by decide   -- negative ints refused (fix 55a6c57)
 
 end Phase3
 
